@@ -366,11 +366,13 @@ PROPS = {
    technique='exhaustive enumeration of all 2^32 float bit patterns through every unary common function (thorough; structured 6.6e5-point lattice + all ties quick), complete special-value products for n-ary functions, every constant against __float128',
    text='Unary functions (floor ceil trunc round roundEven fract abs sign isnan isinf frexp/ldexp modf iround uround texcoord wraps, bit casts) are decided for every float bit pattern in the thorough tier and on a lattice containing every binade edge, tie and special value in the quick tier; doubles on the analogous lattice; n-ary functions (min max step fmin fmax mod clamp fclamp mix smoothstep fma, 3-/4-operand forms) on the complete product of a ~77-value special lattice; all 31 constants x {float,double} compared bit-for-bit with quad-precision evaluations.',
    rule='F32_ALL (2^32 patterns, thorough) / F32_EDGE + F32_TIES (quick); F64_EDGE(+ties beyond 2^31..2^51); F32_SPEC^2, ^3 and a 21-value sublist ^4, same for double. Non-trivial = input inside the function domain (finite for fract/frexp/texcoords, non-negative representable for iround/uround, no signalling NaN for fmin/fmax); distinct by construction.'),
- 'C18': dict(src='drivers/c18.cpp', level='exploration',
+ 'C18': dict(src='drivers/c18.cpp', level='exploration', configs=['default', 'intr_avx2'],   # intr_avx2: the SIMD interleave kernels of glm/simd/integer.h
+  
    technique='exhaustive enumeration of all 8/16-bit values x all multiples / shift counts / bit counts (and all 2^32 16-bit interleave pairs, thorough) on the real functions against loop-based reference definitions',
    text='Power-of-two family, multiples, findNSB, mask/fill/rotate are decided completely for 8-bit types (every value x every multiple 1..127/255, every shift, every (first,count)) and for all 16-bit values against a set of multiples; 32/64-bit types over boundary lattices; bitfieldInterleave/Deinterleave completely for 8-bit pairs and (thorough) all 2^32 16-bit pairs; gtx integer sqrt/nlz/log2 over all 2^32 ints (thorough).',
    rule='INT8_ALL/INT16_ALL complete, INT32_EDGE/INT64_EDGE lattices (0, +-2^k, +-2^k+-1, runs of ones, complements, patterns) crossed with complete small parameter ranges (multiples, shift 0..w-1, n 1..w+1, OFFBITS). Power-of-two family restricted to x>0 and representable results, multiples to m>=1 and representable results (statement domain); skipped cases are counted as trivial. Float multiples: x=k/4 (k=-200..200) x 9 exactly representable m, all arithmetic exact.'),
- 'C05': dict(src='drivers/c05.cpp', level='exploration',
+ 'C05': dict(src='drivers/c05.cpp', level='exploration', configs=['default', 'intr_avx2'],   # intr_avx2: the popcnt / SIMD code paths of func_integer_simd.inl
+  
    technique='exhaustive enumeration of every 8- and 16-bit value (and, thorough, all 2^32 32-bit values) x every legal (offset,bits) pair on the real functions, compared with a bit-at-a-time reference model',
    text='bitCount/findLSB/findMSB/bitfieldReverse/bitfieldExtract are decided completely for 8- and 16-bit types (and for 32-bit unary functions in the thorough tier), signed and unsigned, scalar and vec1-4; bitfieldInsert completely for 8-bit and over structured lattices x all (offset,bits) otherwise; 64-bit types and the two-operand 32-bit carry/borrow/extended-multiply functions over boundary lattices (stated as such in evidence).',
    rule='values: INT8_ALL / INT16_ALL complete, INT32_ALL complete (thorough, unary ops) else INT32_EDGE/INT64_EDGE (0, +-2^k, +-2^k+-1, all runs of ones, complements, periodic patterns); (offset,bits): OFFBITS(w) = every pair with offset+bits <= w; vector overloads receive x and three derived companions (~x, rotl3(x), multiplicative hash) in lanes 0..3. Non-trivial = every enumerated case (no precondition rejects any); distinct by construction of the domains.'),
